@@ -230,6 +230,79 @@ impl Ctx {
         self.inner.lock().unwrap().viol_counts.values().sum()
     }
 
+    /// Child-process mode: print everything this context collected as tab-separated lines
+    /// (absorbed by the parent's `absorb`). Nothing is written to disk.
+    pub fn emit_child(&self) {
+        let g = self.inner.lock().unwrap();
+        println!("E\t{}", self.evals.load(Ordering::Relaxed));
+        println!("D\t{}", g.distinct.len());
+        for (k, v) in g.hist.iter() {
+            println!("S\t{}\t{}", k.replace('\t', " "), v);
+        }
+        for (sig, detail) in g.violations.iter() {
+            println!("V\t{}\t{}\t{}", sig.replace('\t', " "), g.viol_counts.get(sig).copied().unwrap_or(1), detail);
+        }
+        for (sig, n) in g.known_hits.iter() {
+            println!("K\t{}\t{}", sig, n);
+        }
+        for s in g.samples.iter() {
+            println!("X\t{}", s);
+        }
+        for r in g.inconclusive.iter() {
+            println!("I\t{}", r.replace('\n', " "));
+        }
+        println!("END");
+    }
+
+    /// Merge the output of a child process. Returns false if the child did not finish.
+    pub fn absorb(&self, text: &str, tag: &str) -> bool {
+        let mut ended = false;
+        for line in text.lines() {
+            let f: Vec<&str> = line.splitn(4, '\t').collect();
+            match f[0] {
+                "E" => self.evals(f.get(1).and_then(|x| x.parse().ok()).unwrap_or(0)),
+                "D" => {
+                    let n: u64 = f.get(1).and_then(|x| x.parse().ok()).unwrap_or(0);
+                    let mut g = self.inner.lock().unwrap();
+                    for i in 0..n {
+                        g.distinct.insert(fnv(&format!("{}|{}", tag, i)));
+                    }
+                }
+                "S" if f.len() >= 3 => self.seen_n(&format!("{} [{}]", f[1], tag), f[2].parse().unwrap_or(0)),
+                "V" if f.len() >= 4 => {
+                    let detail: Value = serde_json::from_str(f[3]).unwrap_or(json!({"raw": f[3]}));
+                    let mut d = detail;
+                    if let Some(o) = d.as_object_mut() {
+                        o.insert("profile".into(), json!(tag));
+                    }
+                    let n: u64 = f[2].parse().unwrap_or(1);
+                    self.violation(f[1], d);
+                    if n > 1 {
+                        let mut g = self.inner.lock().unwrap();
+                        if let Some(c) = g.viol_counts.get_mut(f[1]) {
+                            *c += n - 1;
+                        }
+                    }
+                }
+                "K" if f.len() >= 3 => {
+                    let mut g = self.inner.lock().unwrap();
+                    *g.known_hits.entry(f[1].to_string()).or_insert(0) += f[2].parse::<u64>().unwrap_or(1);
+                }
+                "X" if f.len() >= 2 => {
+                    let rest = &line[2..];
+                    if let Ok(v) = serde_json::from_str::<Value>(rest) {
+                        let kind = v.get("kind").and_then(|k| k.as_str()).unwrap_or("child").to_string();
+                        self.sample(&kind, 1, || v);
+                    }
+                }
+                "I" if f.len() >= 2 => self.inconclusive(&format!("[{}] {}", tag, f[1])),
+                "END" => ended = true,
+                _ => {}
+            }
+        }
+        ended
+    }
+
     /// Write evidence + replays, print verdict lines, return the process exit code.
     pub fn finish(&self) -> i32 {
         let root = verif_root();
